@@ -225,10 +225,18 @@ def epigraph_substitution(elementwise_constrs):
     # constraints might be linear, we can skip a potentially very expensive curvature check.
     nonlin_atom_to_scalar_exprs = defaultdict(lambda: list())
     for c in elementwise_constrs:
+        # Atoms which were replaced by epigraph variables in an earlier compilation of this
+        # constraint no longer appear in c.expr; their conic constraints are still needed.
+        substituted = getattr(c, '_substituted_atoms', [])
+        for a in substituted:
+            nonlin_atom_to_scalar_exprs[a] += []
         for se in c.expr.flat:
             for a in se.atoms_to_coeffs:
                 if not isinstance(a, ScalarVariable):
                     nonlin_atom_to_scalar_exprs[a].append(se)
+                    if not any(a is b for b in substituted):
+                        substituted = substituted + [a]
+        c._substituted_atoms = substituted
         c.epigraph_checked = True
     nl_cone_data = []
     for nl in nonlin_atom_to_scalar_exprs:
